@@ -86,14 +86,14 @@ func GenForkSchedule(t *rapid.T, maxEpoch uint64) [4]uint64 {
 // GenCustomOverride draws a custom preset inside the structural envelope described in DESIGN §2.3.
 func GenCustomOverride(t *rapid.T) map[string]uint64 {
 	o := map[string]uint64{}
-	spe := pick(t, "SLOTS_PER_EPOCH", 4, 4, 8)
+	spe := pick(t, "SLOTS_PER_EPOCH", 4, 4, 8, 6)
 	o["SLOTS_PER_EPOCH"] = spe
 	o["TARGET_COMMITTEE_SIZE"] = pick(t, "TARGET_COMMITTEE_SIZE", 2, 4)
 	o["MAX_COMMITTEES_PER_SLOT"] = pick(t, "MAX_COMMITTEES_PER_SLOT", 1, 2, 4)
 	o["SHUFFLE_ROUND_COUNT"] = pick(t, "SHUFFLE_ROUND_COUNT", 3, 10, 10, 90)
-	o["SLOTS_PER_HISTORICAL_ROOT"] = spe * pick(t, "SPHR_mult", 2, 4, 8)
-	o["EPOCHS_PER_HISTORICAL_VECTOR"] = pick(t, "EPOCHS_PER_HISTORICAL_VECTOR", 8, 16, 64)
-	o["EPOCHS_PER_SLASHINGS_VECTOR"] = pick(t, "EPOCHS_PER_SLASHINGS_VECTOR", 4, 8, 64)
+	o["SLOTS_PER_HISTORICAL_ROOT"] = spe * pick(t, "SPHR_mult", 2, 4, 8, 3)
+	o["EPOCHS_PER_HISTORICAL_VECTOR"] = pick(t, "EPOCHS_PER_HISTORICAL_VECTOR", 8, 16, 64, 12)
+	o["EPOCHS_PER_SLASHINGS_VECTOR"] = pick(t, "EPOCHS_PER_SLASHINGS_VECTOR", 4, 8, 64, 6)
 	o["EPOCHS_PER_ETH1_VOTING_PERIOD"] = pick(t, "EPOCHS_PER_ETH1_VOTING_PERIOD", 1, 1, 2, 4)
 	o["MAX_SEED_LOOKAHEAD"] = pick(t, "MAX_SEED_LOOKAHEAD", 1, 2, 4)
 	o["MIN_EPOCHS_TO_INACTIVITY_PENALTY"] = pick(t, "MIN_EPOCHS_TO_INACTIVITY_PENALTY", 1, 2, 4)
@@ -103,7 +103,7 @@ func GenCustomOverride(t *rapid.T) map[string]uint64 {
 	o["MIN_PER_EPOCH_CHURN_LIMIT"] = pick(t, "MIN_PER_EPOCH_CHURN_LIMIT", 1, 2, 4)
 	o["CHURN_LIMIT_QUOTIENT"] = pick(t, "CHURN_LIMIT_QUOTIENT", 4, 32, 65536)
 	o["MAX_PER_EPOCH_ACTIVATION_CHURN_LIMIT"] = pick(t, "MAX_PER_EPOCH_ACTIVATION_CHURN_LIMIT", 1, 2, 8)
-	o["SYNC_COMMITTEE_SIZE"] = pick(t, "SYNC_COMMITTEE_SIZE", 4, 8, 32)
+	o["SYNC_COMMITTEE_SIZE"] = pick(t, "SYNC_COMMITTEE_SIZE", 4, 8, 32, 12)
 	o["EPOCHS_PER_SYNC_COMMITTEE_PERIOD"] = pick(t, "EPOCHS_PER_SYNC_COMMITTEE_PERIOD", 1, 2, 4, 8)
 	o["MAX_PROPOSER_SLASHINGS"] = pick(t, "MAX_PROPOSER_SLASHINGS", 1, 2, 16)
 	o["MAX_ATTESTER_SLASHINGS"] = pick(t, "MAX_ATTESTER_SLASHINGS", 1, 2)
